@@ -2,7 +2,7 @@
    partial-copy invariant of the loops, and the cell-wise copy as their composition. *)
 From Coq Require Import ZArith List Bool Lia.
 From Tickit Require Import RectDefs RBDefs RBSpec RBLemmas RBSpanProofs RBAbsLemmas RBInv RBOpProofs RBProofs RBProps RBRestore
-                           RBCopyDefs RBCopySpec RBCopyProofs.
+                           RBCopyDefs RBCopySpec RBCopyProofs RBPenLemmas.
 Import ListNotations.
 Local Open Scope Z_scope.
 
@@ -12,9 +12,6 @@ Definition achar_ok (A : ast) : Prop :=
 
 (* ---------------------------------------------------------------------------------- *)
 (* the pen bracket around one operation, on the abstraction *)
-
-Lemma pen_copy_empty : forall q, pen_copy pen_empty q true = q.
-Proof. intros [a b c d]. unfold pen_copy, pen_empty. cbn. destruct a, b, c, d; reflexivity. Qed.
 
 Lemma completed_pen_eq : forall cur q, completed_pen cur q = pen_copy q cur false.
 Proof. intros. unfold completed_pen. now rewrite pen_copy_empty. Qed.
